@@ -5,7 +5,9 @@ import time
 
 import conc
 import crash
+import cryptocheck
 import minthist
+import proofgate
 import tables
 from core import tier, write_evidence
 
@@ -60,6 +62,11 @@ def c03():
                               gen_overrides={"MaxMq": 5}), conc.c03_scenarios())
 
 
+@reg("C04")
+def c04():
+    return proofgate.check("C04")
+
+
 @reg("C05")
 def c05():
     return minthist.check("C05", profile=["mintquote", "settle", "mint", "swap", "meltquote", "melt", "pollmelt", "checkstate", "restart"],
@@ -68,7 +75,7 @@ def c05():
 
 @reg("C06")
 def c06():
-    return minthist.check("C06")
+    return minthist.check("C06", level="exploration")
 
 
 @reg("C07")
@@ -78,7 +85,19 @@ def c07():
 
 @reg("C09")
 def c09():
-    return minthist.check("C09", fees=(0, 100, 1000, 2500))
+    extra, v = cryptocheck.keyset_derivation("C09")
+    rc = minthist.check("C09", fees=(0, 100, 1000, 2500), extra_cov=extra)
+    return 1 if (v or rc) else 0
+
+
+@reg("C10")
+def c10():
+    return cryptocheck.check("C10", "bdhke")
+
+
+@reg("C11")
+def c11():
+    return cryptocheck.check("C11", "derive")
 
 
 @reg("C12")
